@@ -571,7 +571,8 @@ class Memory():
             self._write_requests_lock.acquire()
             do_call_sucess_cb = False
             do_call_fail_cb = False
-            if len(self._write_requests[id]) == 0:
+            # The requests can have been cleared (disconnect) by another thread while we waited for the lock
+            if len(self._write_requests.get(id, [])) == 0:
                 # Duplicated or late ack, there is no write outstanding for this memory
                 self._write_requests_lock.release()
                 return
